@@ -2,8 +2,8 @@
    vm_compute over Q on the inputs/outputs of the implementation). *)
 From Coq Require Import List ZArith QArith Bool Arith.
 Import ListNotations.
-From FV.C17 Require Import Model AlignEntry.
-From FV.C17.gen Require Import TensorIdx.
+From FV.C17 Require Import Model AlignEntry AlignDtype.
+From FV.C17.gen Require Import TensorIdx AlignCfg.
 
 Fixpoint nat_list_eqb (a b : list nat) : bool :=
   match a, b with
@@ -87,3 +87,8 @@ Definition chk_align_idem (outs : list (spm Q)) : bool :=
   | inl As => all2 spm_eq As outs
   | inr _ => false
   end.
+
+(* dtype of the data of every returned matrix = the translated expression on the dtype of
+   the corresponding input's data *)
+Definition chk_align_dtype (ins outs : list dtype) : bool :=
+  all2 (fun d o => dtype_eqb (result_dtype d) o) ins outs.
